@@ -77,5 +77,25 @@ CHECKS = {
         "note": "Trusted: mc/oracles/so3.py, numpy. Tolerances 1e-8 (matrices) / 1e-9 (positions).",
         "technique": "bounded-exhaustive enumeration of symmetry orders, spellings, poses and offsets on the implementation against an explicit-matrix oracle",
     },
+    "C06": {
+        "text": "A rotation set G (24 cube rotations, 45-degree Euler lattice, gimbal families incl. out-of-range and equal-but-differently-written triples, epsilon-neighbours of identity and of half-turns, generic rotations; 369 quick / 1333 thorough): all ordered pairs through the batch interface in three input modes plus a per-pair-call core, all triples of a 60/100-element core (triangle inequality), two-sided invariance under the cube group and generic rotations; euler_angles_to_normals for every batch size 1..12 (thorough ..500) at every start; normals_to_euler_angles for 44 directions x lengths x batch sizes x orders x input kinds.",
+        "note": "Trusted: mc/oracles/so3.py (explicit matrices, atan2-conditioned rotation angle). Tolerances 2e-5 degrees, 1e-4 slack on the triangle inequality.",
+        "technique": "bounded-exhaustive enumeration of rotation pairs/triples/batches on the implementation against explicit SO(3) matrices",
+    },
+    "C07": {
+        "text": "clean_by_distance: every subset (<= 4, thorough <= 5) of a jittered 6-site line and 3x3 grid x every score ranking (plus one-tie rankings) x every assignment to <= 2 (3) groups x grouping field x metric field x radii x direction x shifts; oracle: separation, domination, group independence (differential: group cleaned alone), equality with the unique greedy solution. tmana peak extraction: every ranking (720) of five 6-voxel volume shapes (thorough: 40 320 rankings of 2x2x2) x thresholds x diameters x angle-list numbering x zxz/zzx x array/file lists.",
+        "note": "Trusted: mc/oracles/suppress.py (greedy model, numpy). Distance ties are excluded and the exclusion is proven by brute force on every palette; groups containing a score tie are exempt from the model clause.",
+        "technique": "bounded-exhaustive enumeration of point configurations x rankings x groupings on the implementation against a greedy reference model and the statement's invariants",
+    },
+    "C18": {
+        "text": "A universe of 6 (thorough 7) jittered sites over 2 (3) tomograms with fixed orientations (generic, both gimbal locks, half-turn, two equal) and non-zero shifts: every query subset x every neighbour subset x k x pixel size against a brute-force k-nearest-neighbour oracle (ids, distances, offsets in tomogram and particle frame, angular distance, relative orientation); every subset pair with a common tomogram under 26/28 per-tomogram rigid motions (24 cube rotations + generic, with translations) for invariance. Genericity (distance gaps >= 1e-3, shifts matter) proven by brute force.",
+        "note": "Trusted: brute-force oracle in mc/props/C18.py, mc/oracles/so3.py. rotation_type='all' is outside the statement and not explored; fully disjoint tomogram sets are executed but not judged.",
+        "technique": "bounded-exhaustive enumeration of particle-list pairs and rigid motions on the implementation against a brute-force oracle",
+    },
+    "C19": {
+        "text": "Every ordered selection (the algorithm is order dependent) of n = 2..4 particles from a jittered 6-site line x every assignment of exit displacements x threshold pairs, n = 5 and n = 6 on reduced alphabets (n = 6 is the smallest scope that reaches the tail-cut branch), two interleaved tomograms, shifted sites (thorough: n = 5 complete, grid, n = 6 with two displacements). Oracle: invariants only (every particle once, order numbers 1..k per chain, consecutive links within (min,max] and equal to the recorded distance, no chain across tomograms); a sys.monitoring probe requires the suffix / prefix / prefix-with-cut / both-sides / tail-cut branches to be entered.",
+        "note": "Trusted: mc/oracles/chains.py (numpy). No entry-exit distance within 1e-3 of a threshold. Lists longer than 6 are not explored.",
+        "technique": "bounded-exhaustive enumeration of ordered particle configurations on the implementation against the statement's invariants, with branch-reachability guards",
+    },
 }
 NOT_APPLICABLE = {}
